@@ -417,7 +417,7 @@ func pairs(tier string) []Case {
 
 func Run(r *report.Run) {
 	ctx := context.Background()
-	r.Rule = "pairs (A,B) of the SQLite schema universe (quick: all pairs of <=1-feature states plus each 2-feature state against its 1-feature sub-states and against the bare skeleton; thorough: all pairs of <=2-feature states), A created by our DDL and populated with 3 rows per table (2 data variants: third row holds NULL wherever A allows / no NULLs), then the `schema apply` flow towards B (given as HCL of our writer, or as atlas's own export of a database built with B's DDL), inside a transaction and (one data variant) outside one, as --tx-mode none does; the bystander table u holds child rows of t (ON DELETE CASCADE); rows read before/after by our own connection with quote(); CLI slice: the populated database file goes through the real `atlas schema apply --auto-approve` with the desired state as one HCL file and as a directory of HCL files (with a nested directory, which is not read), and through the SQL that the real `atlas schema diff` prints, executed as it stands by our own connection, for every 1-feature state against the skeleton in both directions (thorough: also against its catalogue neighbour): the rows of the untouched tables p and u must be byte-identical and no row of t may be lost; non-trivial = pair with a non-empty plan that was applied; distinct = (A,B,variant)"
+	r.Rule = "pairs (A,B) of the SQLite schema universe (quick: all pairs of <=1-feature states plus each 2-feature state against its 1-feature sub-states and against the bare skeleton; thorough: all pairs of <=2-feature states), A created by our DDL and populated with 3 rows per table (2 data variants: third row holds NULL wherever A allows / no NULLs), then the `schema apply` flow towards B (given as HCL of our writer, or as atlas's own export of a database built with B's DDL), inside a transaction and (one data variant) outside one, as --tx-mode none does; the bystander table u holds child rows of t (ON DELETE CASCADE); rows read before/after by our own connection with quote(); CLI slice: the populated database file goes through the real `atlas schema apply --auto-approve` with the desired state as one HCL file and as a directory of HCL files (with a nested directory, which is not read), with a populated user table named new_t (the name the rebuild procedure gives its temporary copy) in both states, and through the SQL that the real `atlas schema diff` prints, executed as it stands by our own connection, for every 1-feature state against the skeleton in both directions (thorough: also against its catalogue neighbour): the rows of the untouched tables p and u must be byte-identical and no row of t may be lost; non-trivial = pair with a non-empty plan that was applied; distinct = (A,B,variant)"
 	r.Assumptions = []string{
 		"a plan may fail only if the desired schema cannot hold the data (NOT NULL without default over a NULL or as a new column); such expected failures are counted separately",
 		"a value is compared when the column exists before and after with the same declared type and is not generated; NULL under a new NOT NULL DEFAULT x is expected to become x",
